@@ -207,7 +207,8 @@ class KeyChain:
             if x == "next_key":
                 inner = self.classify(expr.args[0], fi, depth + 1, seen) if expr.args else {"unknown:next_key()"}
                 bad = {t for t in inner if t.startswith(("entropy", "global-rng", "unknown"))}
-                return bad or {"next_key"}
+                # the successor of a loop-carried key is still tied to that slot of the loop state (the key-advance rule asks about it)
+                return bad or ({"next_key"} | {t for t in inner if t.startswith("state-slot:")})
             r = self.idx.resolve_expr(fi.module, expr.func, fi)
             if r is not None and r.kind == "external":
                 role = role_of(r.val)
